@@ -12,6 +12,7 @@ Pretty printer: Pyc/Model/Indent.lean models collada.xmlutil.indent; Pyc/Props/C
 (content_indent) and that applying it again changes nothing (indent_idem); tie: the real indent() vs the model on random trees.
 """
 import copy
+import hashlib
 import io
 import os
 import random
@@ -56,6 +57,10 @@ def deep(doc):
                 extra.append(('src', str(k), shape, str(src.data.dtype), type(src.components).__name__, list(src.components)))
         for p in g.primitives:
             extra.append(('prim', type(p).__name__, None if p.index is None else (tuple(p.index.shape), str(p.index.dtype))))
+            # every array the primitive holds under any name (`indices` is the documented alias of `index`), with shape, type and values
+            for name, v in sorted(vars(p).items()):
+                if isinstance(v, numpy.ndarray):
+                    extra.append(('prim.' + name, tuple(v.shape), str(v.dtype), hashlib.sha1(numpy.ascontiguousarray(v).tobytes()).hexdigest()[:12]))
     s['_deep'] = extra
     return s
 
@@ -142,7 +147,11 @@ def wbytes(doc):
 
 
 def make_doc(kind, seed, nops):
-    doc, gen = c02.base_doc(kind, seed)
+    try:
+        doc, gen = c02.base_doc(kind, seed)
+    except Exception as e:          # a base document that does not load is not a history of saves
+        core.note_skip('c03:base', e)
+        return None, []
     hist = []
     for i in range(nops):
         try:
@@ -508,7 +517,7 @@ def run(ctx):
                 ctx.violation('corr:indent', 'collada.xmlutil.indent and Pyc.Indent.indent disagree on %r: model %r, implementation %r' % (l[:200], m[:200], w[:200]),
                               dict(kind='indent', line=l), found_input=False)
                 break
-    bases = ['constructed', 'reloaded'] + c02.CORPUS
+    bases = ['constructed', 'reloaded', 'docgen', 'docgen'] + c02.CORPUS
     for i in range(ctx.n(60, 2500)):
         kind = bases[i % len(bases)] if i % 3 == 2 else ('constructed' if i % 3 == 0 else 'reloaded')
         seed = ctx.rng.randrange(10 ** 9)
